@@ -212,6 +212,7 @@ pub fn run_c06(ctx: &Ctx) -> Report {
     if st.local.counters[0] == 0 || st.local.counters[1] == 0 || n_entries < 8000 {
         rep.engine_failures.push("vacuity guard: maximize never changed / always changed, or too few entries".into());
     }
+    super::conc::run_family(ctx, "maximize", "c06.schedule", &mut rep);
     rep.rule = "E4: all CLDR entries K->V, then every (language, script, region) of the universe of subtags occurring in likelySubtags.json plus unknown representatives and 'absent' — the complete product; each triple goes to likelysubtags::maximize and is compared with the dictionary reference (fallbacks named by C06 accepted as alternatives). Non-trivial = the reference finds an entry. Triples are pairwise distinct by construction.".into();
     rep.assumptions = vec!["data/likelySubtags.json is the CLDR source of truth".into(), "unknown subtags of one kind behave alike (binary-search miss)".into()];
     rep
@@ -340,6 +341,7 @@ pub fn run_c07(ctx: &Ctx) -> Report {
         super::history::fill_report(&mut rep, &sum, "C07: maximize as an action of the mutation histories");
         let _ = keep;
     }
+    super::conc::run_family(ctx, "maximize", "c07.schedule", &mut rep);
     rep.rule = "E4: the complete product L x S x R (incl. absent and unknown representatives) through likelysubtags::maximize, checked against the algebraic laws only (no data); then a sub-universe x 3 variant lists x 4 extension sets through the in-place APIs. Non-trivial = maximize changes the triple.".into();
     rep
 }
@@ -507,6 +509,7 @@ pub fn run_c08(ctx: &Ctx) -> Report {
         super::history::fill_report(&mut rep, &sum, "C08: minimize as an action of the mutation histories");
         let _ = keep;
     }
+    super::conc::run_family(ctx, "minimize", "c08.schedule", &mut rep);
     rep.rule = "E4: the complete product L x S x R through likelysubtags::minimize; the laws of C08 are evaluated on the library alone (using the library's own maximize), the chosen form is also compared with the dictionary reference; then the in-place APIs on a sub-universe x variants x extensions. 'minimize(maximize(x)) == minimize(x)' is read at function-return level (DESIGN §6.1). Non-trivial = minimize returns a form.".into();
     rep
 }
